@@ -214,6 +214,30 @@ def core_hx(b):
 def c04(ctx):
     out = ref_sweep(ctx, ctx.n(400, 8000), igs=("g",), modes=("flat", "grouped", "to_graph"))
     out += ref_sweep(ctx, ctx.n(250, 5000), igs=("g", "r"), modes=("flat", "grouped", "to_graph"), rdf11=True)
+    out += external_streams(ctx)
+    return out
+
+
+def external_streams(ctx) -> list:
+    """Streams written by OTHER producers (the Jelly project's sample file and the metadata examples that
+    ship with pyjelly's tests, copied to corpus/external): the referee must call them Valid -- a check
+    of Spec.v itself against data it was not written alongside -- and pyjelly must read what it says."""
+    import pathlib
+
+    import core
+
+    out = []
+    for f in sorted((pathlib.Path(__file__).resolve().parent.parent / "corpus" / "external").glob("*.jelly")):
+        data = f.read_bytes()
+        status, cls_, evs = fam_encode.spec_events(ctx.driver.ask("SB " + core.hx(data)))
+        ctx.report.evaluations += 1
+        ctx.report.count("PA/external/" + status)
+        if status != "valid":
+            out.append({"family": "REF", "what": f"the referee calls the external stream {f.name} {status} {cls_}", "bytes": core.hx(data),
+                        "property_violation": None, "signature": {}})
+            continue
+        ctx.report.nontrivial.add(("external", f.name))
+        out += fam_parse.run_parse_case(ctx, data, evs, igs=("g", "r"), modes=("flat", "grouped"), meta={"file": f.name}, rdf11=True)
     return out
 
 
